@@ -5,7 +5,11 @@
 (the driver puts the repository first on sys.path and installs the private build of the C codec as
 ethosu.mlw_codec itself; it does not rely on a sitecustomize shim, which concurrent VERIF_REPO runs share)
 
-plan  = {"workdir": dir, "steps": [{"entry": "main"|"convert"|"convert_bytes", "model": path, "args": [...]}]}
+plan  = {"workdir": dir, "steps": [{"entry": "main"|"convert"|"convert_bytes", "model": path, "args": [...],
+                                    "container": "file"|"ba"|"shared"|"mvrw"|"mvro"}]}
+         container (convert_bytes only): ba = a bytearray made for this call; shared = the bytearray this "caller" keeps
+         per model and hands in again in later steps; mvrw = a writable memoryview of that kept bytearray; mvro = a
+         memoryview of a bytes object (read-only)
 result = {"hashseed": ..., "init": <cache projection>, "steps": [<step record>...]}
 
 Every step calls the real entry point of ethosu.vela.vela.  After each step the process-wide state is
@@ -14,6 +18,10 @@ DebugDatabase tables, default_arch_cache, MemoryAccessSet.conflicts (lru_cache),
 Three observation wrappers are installed at run time (no source hook): cache lookups, equivalence-id
 requests and address assignments are counted, and those that are served from / collide with state created
 by an *earlier* step of the same process are counted separately ("stale").  The wrappers only observe.
+Per step the driver also records every file the call wrote ("art": [name relative to the output directory, digest];
+the path of the output directory inside text files is replaced by $OUT) and digests of the object the entry point was
+handed (the caller's buffer, or the model file) before and after the call ("inb", "ina"; "ino" = the model as it was when
+this process first read it).
 """
 import contextlib
 import hashlib
@@ -21,12 +29,35 @@ import io
 import json
 import os
 import random
+import shutil
 import sys
 import traceback
 
 
 def _h(b):
     return hashlib.sha256(bytes(b)).hexdigest()[:16]
+
+
+def _files(root):
+    out = {}
+    for dp, _, fns in os.walk(root):
+        for fn in fns:
+            out[os.path.relpath(os.path.join(dp, fn), root)] = os.path.join(dp, fn)
+    return out
+
+
+def _artefacts(root, shown_as, skip=()):
+    """[name, digest] of every file below root; text files with the directory name masked"""
+    art = []
+    for rel, path in sorted(_files(root).items()):
+        if rel in skip:
+            continue
+        data = open(path, "rb").read()
+        if not rel.endswith(".tflite"):
+            for d in shown_as:
+                data = data.replace(d.encode(), b"$OUT")
+        art.append([rel, _h(data)])
+    return art
 
 
 def _inject():
@@ -59,6 +90,7 @@ def main():
             # cannot bind to the code (e.g. the file is being rewritten): the harness reports a machinery error
             sys.stderr.write("entry point ethosu.vela.vela.%s is missing\n" % st["entry"])
             return 3
+    rname = os.path.relpath(os.path.abspath(sys.argv[2]), plan["workdir"])
     obs = {"step": 0}
     wc_born = {}        # id(cache key object) is not stable -> use the key itself (hashable namedtuple)
     eq_born = {}
@@ -178,6 +210,14 @@ def main():
                 "arch_cache": len(AF.default_arch_cache), "conflict_memo": cf.currsize,
                 "rng": _h(repr(random.getstate()).encode())}
 
+    kept = {}           # model path -> the bytearray the caller keeps (containers shared / mvrw)
+    pristine = {}       # model path -> digest of the model when this process first read it
+
+    def model_bytes(path):
+        data = open(path, "rb").read()
+        pristine.setdefault(path, _h(data))
+        return data
+
     out = {"hashseed": os.environ.get("PYTHONHASHSEED"), "vela_file": vela.__file__, "init": project(), "steps": []}
     codec = sys.modules.get("ethosu.mlw_codec")
     out["codec_file"] = getattr(codec, "__file__", None)
@@ -185,12 +225,36 @@ def main():
         obs["step"] = i + 1
         reset_counters()
         rec = {"entry": st["entry"], "rc": None, "digest": None, "csv": None, "exc": None, "msg": None, "tb": None,
-               "ddb_digest": None}
+               "ddb_digest": None, "art": [], "inb": "", "ina": "", "ino": ""}
         buf = io.StringIO()
+        cont = st.get("container") or ("ba" if st["entry"] == "convert_bytes" else "file")
+        rec["container"] = cont
+        handed = owner = None       # the object given to the entry point / the object whose bytes the caller owns
+        art_of = lambda: []
+        try:
+            if st["entry"] == "convert_bytes":
+                if cont in ("shared", "mvrw"):
+                    if st["model"] not in kept:
+                        kept[st["model"]] = bytearray(model_bytes(st["model"]))
+                    owner = kept[st["model"]]
+                    handed = owner if cont == "shared" else memoryview(owner)
+                elif cont == "mvro":
+                    owner = bytes(model_bytes(st["model"]))
+                    handed = memoryview(owner)
+                else:
+                    owner = handed = bytearray(model_bytes(st["model"]))
+                rec["inb"] = _h(owner)
+            else:
+                rec["inb"] = _h(model_bytes(st["model"]))
+            rec["ino"] = pristine[st["model"]]
+        except OSError as e:
+            sys.stderr.write("cannot read %s: %s\n" % (st["model"], e))
+            return 3
         try:
             with contextlib.redirect_stdout(buf):
                 if st["entry"] == "main":
                     od = os.path.join(plan["workdir"], "o%d" % i)
+                    art_of = lambda: _artefacts(od, [od]) if os.path.isdir(od) else []
                     rc = vela.main([st["model"], "--output-dir", od] + list(st.get("args", [])))
                     rec["rc"] = rc
                     base = os.path.splitext(os.path.basename(st["model"]))[0]
@@ -207,14 +271,15 @@ def main():
                 elif st["entry"] == "convert":
                     base = os.path.splitext(os.path.basename(st["model"]))[0]
                     exp = os.path.join("output", base + "_vela.tflite")
-                    if os.path.exists(exp):
-                        os.remove(exp)
+                    shutil.rmtree("output", ignore_errors=True)     # what is there afterwards was written by this step
+                    art_of = lambda: _artefacts("output", ["output"]) if os.path.isdir("output") else []
                     fn = vela.convert(st["model"])
                     rec["rc"] = 0
                     rec["digest"] = _h(open(fn, "rb").read())
                 elif st["entry"] == "convert_bytes":
-                    data = bytearray(open(st["model"], "rb").read())
-                    mv = vela.convert_bytes(data)
+                    before = set(_files(plan["workdir"]))
+                    art_of = lambda: _artefacts(plan["workdir"], [plan["workdir"]], skip=before | {rname, rname + ".tmp"})
+                    mv = vela.convert_bytes(handed)
                     rec["rc"] = 0
                     rec["digest"] = _h(bytes(mv))
                 else:
@@ -229,6 +294,11 @@ def main():
             rec["tb"] = traceback.format_exc()[-1500:]
         text = buf.getvalue()
         rec["stdout_tail"] = text[-300:]
+        try:
+            rec["art"] = art_of()
+            rec["ina"] = _h(owner) if owner is not None else _h(open(st["model"], "rb").read())
+        except OSError as e:
+            rec["art"], rec["ina"] = [["<unreadable>", str(e)[:60]]], "unreadable"
         rec["after"] = project()
         rec["obs"] = dict(cnt)
         rec["keys"] = {k: sorted(v) for k, v in keys.items()}
